@@ -189,7 +189,7 @@ def run_ladim(conf_file: Path, cwd: Path | None = None) -> RunResult:
     except HarnessError:
         raise
     except Exception as e:  # noqa: BLE001
-        if _is_harness_tb(e.__traceback__):
+        if getattr(e, "_vmon_harness", False) or (not getattr(e, "_vmon_target", False) and _is_harness_tb(e.__traceback__)):
             raise HarnessError(f"exception in harness code during ladim run: {e!r}\n{traceback.format_exc()}") from e
         return RunResult("error", exc=f"{type(e).__name__}: {e}", tb=traceback.format_exc(limit=-8))
     finally:
